@@ -146,6 +146,38 @@ theorem invalid_label_rejected_by_bind (s : St) (id : Nat) (hbad : s.labels.leng
   · simp [embedLabelDelta, h1, report]
   · simp only [embedLabelDelta, h1]; split <;> simp_all [report]
 
+/-- **`bind` consumes the inline comment before it reports**: whatever the state, whether the label is valid, bound or not, and
+therefore also when the error handler throws out of `report_error`, the state the handler sees has no inline comment; options and
+extra register are not touched. -/
+theorem bind_clears_comment_before_report (s : St) (id : Nat) :
+    (Emitter.bind s id).st.one = { s.one with comment := false } := by
+  simp only [Emitter.bind]
+  repeat' split
+  all_goals simp [done, report]
+
+/-- **Calls that do not consume one-shot state leave it exactly as it was**, failed or not (align, embed, embed_data_array,
+embed_label, embed_label_delta, section, new_section, new_label, new_named_label). -/
+theorem other_calls_keep_one_shot (s : St) (op : Op)
+    (h : match op with | .emit .. => False | .bind .. => False | .embedConstPool .. => False | _ => True) :
+    (step s op).st.one = s.one := by
+  cases op <;> simp only [step] at h ⊢
+  case newLabel => rfl
+  case newNamedLabel n t p => simp only [newNamedLabel]; repeat' split
+                              all_goals rfl
+  case align m a => simp only [align]; repeat' split
+                    all_goals rfl
+  case embed bs => rfl
+  case embedArray t d c r => simp only [embedArray]; repeat' split
+                             all_goals rfl
+  case embedLabel id sz => simp only [embedLabel]; repeat' split
+                           all_goals rfl
+  case embedLabelDelta id b sz => simp only [embedLabelDelta]; repeat' split
+                                  all_goals rfl
+  case newSection n a => simp only [newSection]; repeat' split
+                         all_goals rfl
+  case «section» i => simp only [switchSection]; repeat' split
+                      all_goals rfl
+
 /-! ## 2. histories -/
 
 /-- the one-shot state is empty between calls (the setters are part of the instruction call in the model) -/
@@ -261,6 +293,7 @@ def snapOf (s : St) : Snap St :=
 open AsmjitVerif.EmitterSpec in
 def kindOf : Op → CallKind
   | .emit .. => .emit
+  | .bind .. => .bind
   | .newSection .. => .holderCall
   | _ => .emitterCall
 
@@ -277,6 +310,7 @@ def observe (s shadow : St) (op : Op) : Obs St :=
     handled := if r.reported ∧ r.st.handler ≠ .none then [r.code] else [],
     thrown := r.reported && r.st.handler == .throwing,
     oneShot := (r.st.one.options, r.st.one.extraSig, r.st.one.extraId, r.st.one.comment),
+    oneShotBefore := (s.one.options, s.one.extraSig, s.one.extraId, s.one.comment),
     before := snapOf s, after := snapOf r.st, shadow := snapOf sh,
     labelRefs := match op with | .emit _ refs _ => refs | _ => [],
     physIds := [] }
@@ -320,7 +354,7 @@ theorem model_step_satisfies_monitor (s : St) (op : Op) (h1 : s.one = OneShot.em
       simp [failedIsAtomic, observe, hid]
   · -- one-shot
     have : (step s op).st.one = OneShot.empty := hone
-    simp [oneShotCleared, observe, this, OneShot.empty]
+    cases op <;> simp [oneShotCleared, observe, kindOf, this, h1, OneShot.empty]
   · -- labels
     cases op with
     | emit pre refs o =>
@@ -396,6 +430,10 @@ example : (step { secs := [{ data := [1] }], labels := [{ bound := some (0, 0) }
     ((step { secs := [{ data := [1] }], labels := [{ bound := some (0, 0) }, {}] } (.embedConstPool 1 8 [7, 7])).st.secs.map (·.data.length)) = [10] ∧
     ((step { secs := [{ data := [1] }], labels := [{ bound := some (0, 0) }, {}] } (.embedConstPool 1 8 [7, 7])).st.labels.map (·.bound)) =
       [some (0, 0), some (0, 8)] := by decide +kernel
+/-- a failing `bind` with a pending comment, options and extra register: comment gone, the rest untouched -/
+example : (step { one := { options := 0x2000, extraSig := 1, extraId := 3, comment := true } } (.bind 9)).code = Err.invalidLabel ∧
+    (step { one := { options := 0x2000, extraSig := 1, extraId := 3, comment := true } } (.bind 9)).st.one =
+      { options := 0x2000, extraSig := 1, extraId := 3, comment := false } := by decide
 /-- valid arguments are accepted (the model does not reject everything) -/
 example : (step {} (.align 0 16)).code = 0 ∧ (step {} (.embed [1, 2])).code = 0 ∧ (step {} (.newSection 5 8)).code = 0 ∧
     (step {} (.newNamedLabel [0x61] 2 kInvalidId)).code = 0 := by decide
